@@ -77,13 +77,17 @@ def step(S, npts, rebalancing, trees=None, sym_coords=True, lmin=1, lmax0=2, ver
             if S.lifted and is_sym(selected):
                 selected = bool(selected)  # already decided on this path: implied, no new fork
             if selected:
-                ok = sym_and(ok, j + 2 < len(xs1) + 0, xs1[j] == xs0[i], xs1[j + 2] == xs0[i + 1] if j + 2 < len(xs1) else False,
-                             sym_and(xs1[j] < xs1[j + 1], xs1[j + 1] < xs1[j + 2]) if j + 2 < len(xs1) else False)
-                if j + 2 < len(xs1):
-                    ok = sym_and(ok, xs1[j + 1] * 2 == xs0[i] + xs0[i + 1])
+                if j + 2 >= len(xs1):
+                    ok = False
+                    break
+                ok = sym_and(ok, xs1[j] == xs0[i], xs1[j + 2] == xs0[i + 1], xs1[j] < xs1[j + 1], xs1[j + 1] < xs1[j + 2],
+                             xs1[j + 1] * 2 == xs0[i] + xs0[i + 1])
                 j += 2
             else:
-                ok = sym_and(ok, j + 1 < len(xs1), xs1[j] == xs0[i], xs1[j + 1] == xs0[i + 1] if j + 1 < len(xs1) else False)
+                if j + 1 >= len(xs1):
+                    ok = False
+                    break
+                ok = sym_and(ok, xs1[j] == xs0[i], xs1[j + 1] == xs0[i + 1])
                 j += 1
         S.prove(sym_and(ok, j == len(xs1) - 1), 'step:exactly-the-intervals-reaching-margin*max-benefit-are-split-at-the-midpoint')
         S.prove(sa.lmax[k] >= pre_lmax[k], 'step:lmax-never-decreases')
